@@ -347,4 +347,148 @@ theorem renderStr_no_raw_control (s : Bytes) : ∀ c ∈ renderStr s, 32 ≤ c :
   · subst h; decide
 
 
+/-! ### Rendered strings are valid UTF-8 -/
+
+theorem escapeByte_high {c : UInt8} (h : ¬ c < 128) : escapeByte c = [c] :=
+  byte_forall (P := fun c => ¬ c < 128 → escapeByte c = [c]) (by decide +kernel) c h
+
+theorem escapeByte_ascii {c : UInt8} (h : c < 128) : ∀ b ∈ escapeByte c, b < 128 :=
+  byte_forall (P := fun c => c < 128 → ∀ b ∈ escapeByte c, b < 128) (by decide +kernel) c h
+
+theorem utf8Valid_cons1 {c : UInt8} (rest : Bytes) (hc : c < 128) :
+    utf8Valid (c :: rest) = utf8Valid rest := by
+  rw [utf8Valid.eq_def]; simp only [hc, if_true]
+
+theorem utf8Valid_cons2 {c : UInt8} (b1 : UInt8) (r : Bytes) (hc : ¬ c < 128)
+    (h2 : 194 ≤ c ∧ c ≤ 223) :
+    utf8Valid (c :: b1 :: r) = (isCont b1 && utf8Valid r) := by
+  rw [utf8Valid.eq_def]; simp only [hc, h2, if_true, if_false, and_self]
+
+theorem utf8Valid_cons3 {c : UInt8} (b1 b2 : UInt8) (r : Bytes) (hc : ¬ c < 128)
+    (h2 : ¬ (194 ≤ c ∧ c ≤ 223)) (h3 : 224 ≤ c ∧ c ≤ 239) :
+    utf8Valid (c :: b1 :: b2 :: r) =
+      ((if c = 224 then decide (160 ≤ b1) && decide (b1 ≤ 191)
+        else if c = 237 then decide (128 ≤ b1) && decide (b1 ≤ 159) else isCont b1) &&
+        isCont b2 && utf8Valid r) := by
+  rw [utf8Valid.eq_def]; simp only [hc, h2, h3, if_true, if_false, and_self]
+
+theorem utf8Valid_cons4 {c : UInt8} (b1 b2 b3 : UInt8) (r : Bytes) (hc : ¬ c < 128)
+    (h2 : ¬ (194 ≤ c ∧ c ≤ 223)) (h3 : ¬ (224 ≤ c ∧ c ≤ 239)) (h4 : 240 ≤ c ∧ c ≤ 244) :
+    utf8Valid (c :: b1 :: b2 :: b3 :: r) =
+      ((if c = 240 then decide (144 ≤ b1) && decide (b1 ≤ 191)
+        else if c = 244 then decide (128 ≤ b1) && decide (b1 ≤ 143) else isCont b1) &&
+        isCont b2 && isCont b3 && utf8Valid r) := by
+  rw [utf8Valid.eq_def]; simp only [hc, h2, h3, h4, if_true, if_false, and_self]
+
+theorem utf8Valid_ascii_append (p tl : Bytes) (h : ∀ b ∈ p, b < 128) :
+    utf8Valid (p ++ tl) = utf8Valid tl := by
+  induction p with
+  | nil => rfl
+  | cons a p ih =>
+    have ha : a < 128 := h a (by simp)
+    rw [List.cons_append, utf8Valid_cons1 _ ha]
+    exact ih (fun b hb => h b (by simp [hb]))
+
+theorem isCont_high {b : UInt8} (h : isCont b = true) : ¬ b < 128 := by
+  simp only [isCont, Bool.and_eq_true, decide_eq_true_eq, UInt8.le_iff_toNat_le,
+    UInt8.lt_iff_toNat_lt] at h ⊢
+  have : (128 : UInt8).toNat = 128 := rfl
+  omega
+
+theorem range_high {b lo hi : UInt8} (hlo : 128 ≤ lo) (h : (decide (lo ≤ b) && decide (b ≤ hi)) = true) :
+    ¬ b < 128 := by
+  simp only [Bool.and_eq_true, decide_eq_true_eq, UInt8.le_iff_toNat_le,
+    UInt8.lt_iff_toNat_lt] at h hlo ⊢
+  have : (128 : UInt8).toNat = 128 := rfl
+  omega
+
+theorem utf8Valid_renderStrBody (tl : Bytes) (htl : utf8Valid tl = true) (s : Bytes) :
+    utf8Valid s = true → utf8Valid (renderStrBody s ++ tl) = true := by
+  induction s using utf8Valid.induct with
+  | case1 => intro _; exact htl
+  | case2 c rest hc ih =>
+    intro h
+    rw [utf8Valid_cons1 _ hc] at h
+    simp only [renderStrBody, List.append_assoc]
+    rw [utf8Valid_ascii_append _ _ (escapeByte_ascii hc)]
+    exact ih h
+  | case3 c hc h2 b1 r ih =>
+    intro h
+    rw [utf8Valid_cons2 _ _ hc h2] at h
+    simp only [Bool.and_eq_true] at h
+    have hb1 := isCont_high h.1
+    simp only [renderStrBody, escapeByte_high hc, escapeByte_high hb1, List.cons_append,
+      List.nil_append]
+    rw [utf8Valid_cons2 _ _ hc h2]
+    simp only [Bool.and_eq_true]
+    exact ⟨h.1, ih h.2⟩
+  | case4 c rest hc h2 hrest =>
+    intro h
+    exfalso
+    cases rest with
+    | nil => rw [utf8Valid.eq_def] at h; simp [hc, h2] at h
+    | cons b1 r => exact hrest b1 r rfl
+  | case5 c hc h2 h3 b1 b2 r ih =>
+    intro h
+    rw [utf8Valid_cons3 _ _ _ hc h2 h3] at h
+    simp only [Bool.and_eq_true] at h
+    have hb1 : ¬ b1 < 128 := by
+      have := h.1.1
+      split at this
+      · exact range_high (by decide) this
+      · split at this
+        · exact range_high (by decide) this
+        · exact isCont_high this
+    have hb2 := isCont_high h.1.2
+    simp only [renderStrBody, escapeByte_high hc, escapeByte_high hb1, escapeByte_high hb2,
+      List.cons_append, List.nil_append]
+    rw [utf8Valid_cons3 _ _ _ hc h2 h3]
+    simp only [Bool.and_eq_true]
+    exact ⟨h.1, ih h.2⟩
+  | case6 c rest hc h2 h3 hrest =>
+    intro h
+    exfalso
+    match rest, hrest with
+    | [], _ => rw [utf8Valid.eq_def] at h; simp [hc, h2, h3] at h
+    | [_], _ => rw [utf8Valid.eq_def] at h; simp [hc, h2, h3] at h
+    | b1 :: b2 :: r, hrest => exact hrest b1 b2 r rfl
+  | case7 c hc h2 h3 h4 b1 b2 b3 r ih =>
+    intro h
+    rw [utf8Valid_cons4 _ _ _ _ hc h2 h3 h4] at h
+    simp only [Bool.and_eq_true] at h
+    have hb1 : ¬ b1 < 128 := by
+      have := h.1.1.1
+      split at this
+      · exact range_high (by decide) this
+      · split at this
+        · exact range_high (by decide) this
+        · exact isCont_high this
+    have hb2 := isCont_high h.1.1.2
+    have hb3 := isCont_high h.1.2
+    simp only [renderStrBody, escapeByte_high hc, escapeByte_high hb1, escapeByte_high hb2,
+      escapeByte_high hb3, List.cons_append, List.nil_append]
+    rw [utf8Valid_cons4 _ _ _ _ hc h2 h3 h4]
+    simp only [Bool.and_eq_true]
+    exact ⟨h.1, ih h.2⟩
+  | case8 c rest hc h2 h3 h4 hrest =>
+    intro h
+    exfalso
+    match rest, hrest with
+    | [], _ => rw [utf8Valid.eq_def] at h; simp [hc, h2, h3, h4] at h
+    | [_], _ => rw [utf8Valid.eq_def] at h; simp [hc, h2, h3, h4] at h
+    | [_, _], _ => rw [utf8Valid.eq_def] at h; simp [hc, h2, h3, h4] at h
+    | b1 :: b2 :: b3 :: r, hrest => exact hrest b1 b2 b3 r rfl
+  | case9 c rest hc h2 h3 h4 =>
+    intro h
+    rw [utf8Valid.eq_def] at h; simp [hc, h2, h3, h4] at h
+
+theorem utf8Valid_renderStr (s : Bytes) (hs : utf8Valid s = true) :
+    utf8Valid (renderStr s) = true := by
+  unfold renderStr
+  have h34 : utf8Valid [34] = true := by decide
+  have := utf8Valid_renderStrBody [34] h34 s hs
+  rw [utf8Valid_cons1 _ (by decide)]
+  exact this
+
+
 end Cacache.Json
